@@ -1,6 +1,6 @@
 """C04 A search always answers with one legal move and never crashes."""
 import os, json
-import vlib, games, searches
+import vlib, games, searches, nodes
 
 
 def model_check(chk, maxdepth):
@@ -67,6 +67,9 @@ def main():
         chk.violation(searches.witness(d), d["what"], d, replay={"kind": "search-event", "events": d["_file"], "line": d.get("at")})
     for prof, h in hangs:
         chk.violation("hang|%s|%s" % (prof, h["jobs"]), "search-did-not-terminate", h, replay={"kind": "search-jobs", "jobs": h["jobs"]})
+    # node level (hook H6, Trace_Nodes.tla): every step of every node of recorded searches replayed on a stack of
+    # rule-book positions; this check reports the clauses filed under its own property
+    nstat = nodes.standard(chk, ("C04",), scale=1.0)
     chk.cov.update({
         "traces_validated_against_impl": len(files),
         "evaluations": stats["searches"], "distinct_nontrivial": stats["mates"] + sum(1 for j in jobs if j["tag"] != "sweep"),
